@@ -40,18 +40,21 @@ func init() {
 			"A round = one queued message (UploadSmartContract, UpdateValset, SubmitLogicCall via scheduler job, UploadUserSmartContract, CompassHandover after a governance compass upgrade) driven through estimates, signatures, relay and evidence by >= 2/3 of the shares, " +
 			"with a proof transaction of a chosen class: faithful (all / shorter prefix of signatures, late signatures, EIP-1559, older valset), one or several corruptions out of a catalogue of 36 field- and byte-level corruptions, receipt status 0 / pre-Byzantium root / missing receipt, " +
 			"a transaction accepted earlier (same call data for a second message, other message, same block for two messages), relayer naming a non-existent valset; " +
+			"Before a used transaction is handed in again on the real chain, the re-submission is also played on forks of the latest state (throw-away contexts; message-server handlers for estimates, signatures, relay, evidence + the consensus end-blocker, judged like a real block) at later heights/times: " +
+			"for update_valset a fresh re-publication of the live snapshot (identical call data: same relayer, estimate, signers) at the next block and at fixed distances from the block the tx was accepted in (300 blocks .. 10 years, each period the code base knows hit exactly and one past) + 2 seed-drawn distances up to 10^9 blocks; for the identical initial deployment of a second chain at 10 heights within the life of the queued message. " +
 			"in some rounds the validators outside the >= 2/3 majority (the relayer among them where the stake allows) report the same transaction with the opposite receipt status, after the majority, before it in the same block, or one block earlier. " +
 			"A round is distinct & non-trivial by (action, call-data class, receipt class, reuse class, signatures used/collected, late signatures, outcome) and only counted when the attestation code actually ran on it. " +
 			"'evaluations' = accept/reject decisions compared with the reference verdict + success-effect events attributed.",
 		Assumptions: []string{
 			">= 2/3 of the snapshot shares report the identical proof (the true transaction and its true receipt) in every round; validators outside that majority are silent or report the same transaction with the opposite receipt status, in any order of submission",
 			"the validator set of the encoding is the one the chain hands out for the valset id the relayer published with the tx hash (GetValsetByID); a valset id without snapshot names no validator set",
+			"on a fork only the consensus module's end-blocker runs and the state is that of the latest real block (plus the queue pruning the blocks in between would have done): nothing else happened on the chain in the meantime",
 			"accept/reject of the attestation: 'the attester ran and its cache context was committed' is read from state (the relay record routerAttester writes into the metrix history of the assignee for the message id), 'rejected' from the module's own log lines ('Failed to verify transaction integrity.' / 'Transaction execution failed' / 'Failed to get transaction receipt'); success effects are read from state",
 		},
 		Cases: cases,
 		Run:   run,
 		MinCounters: []string{"rounds_attested", "accepted_valid_proofs", "rejected_invalid_proofs", "effects_after_valid_proof", "accepted/" + actUpload, "accepted/" + actValset, "accepted/" + actSLC, "accepted/" + actUser, "accepted/" + actHandover,
-			"rounds_forged_success_receipt_reported_first"},
+			"rounds_forged_success_receipt_reported_first", "rounds_used_tx_resubmitted_later_identical_calldata"},
 		Workers: 16, TimeoutS: 1500,
 	})
 }
